@@ -932,7 +932,7 @@ def warmup(rng, prog, r, pts, inplace=True, scratch=60, qset=EXACT_WARM):
             else:
                 continue
             if rng.random() < 0.5:      # the dropped result is itself looked at (a stale statistic carried over shows here)
-                prog.append(stat_query(rng, scratch, rng.choice([q for q in qset if q in ("integral", "mean", "max", "min", "sample")])))
+                prog.append(stat_query(rng, scratch, rng.choice([q for q in qset if q in ("integral", "max", "min", "sample") or (q == "mean" and qset is TOL_WARM)])))
             scratch += 1
         else:
             form = rng.choice(["plain", "plain", "unbounded", "empty", "cancel"])
